@@ -1235,9 +1235,15 @@ fn witness(h: &Hist, cli: &Cli, extra: Value) -> Value {
 /// a secret at backwards index I with z trailing zero bits must derive every earlier
 /// accepted secret whose index shares I's upper (48 - z) bits.
 fn secret_tree_consistent(accepted: &[(u64, [u8; 32])], n: u64, secret: &[u8; 32]) -> bool {
+    if n > oracle::INITIAL_COMMITMENT_NUMBER {
+        return false;
+    }
     let idx = oracle::INITIAL_COMMITMENT_NUMBER - n;
     let z = idx.trailing_zeros().min(48);
     for (m, old) in accepted {
+        if *m > oracle::INITIAL_COMMITMENT_NUMBER {
+            continue;
+        }
         let j = oracle::INITIAL_COMMITMENT_NUMBER - *m;
         if z < 64 && (j >> z) == (idx >> z) && j != idx {
             if &oracle::bolt3_derive(secret, z, j) != old {
@@ -1360,6 +1366,9 @@ fn monitors(h: &mut Hist, r: &mut Report, cli: &Cli, prop: Prop, op: &Op, out: &
             cands.push((*n, cn.clone()));
         }
         for (n, content) in cands {
+            if n > oracle::INITIAL_COMMITMENT_NUMBER {
+                continue; // not a commitment number (an extreme the generator asked for)
+            }
             if ch.m.holder_sig_verifies(&secp, n, &content, sig) && !signed_numbers.contains(&n) {
                 signed_numbers.push(n);
             }
@@ -1372,6 +1381,9 @@ fn monitors(h: &mut Hist, r: &mut Report, cli: &Cli, prop: Prop, op: &Op, out: &
         r.count("holder.sign.ok");
         let ch = &h.chans[c];
         for (n, content) in ch.g.validated.iter().rev().take(4) {
+            if *n > oracle::INITIAL_COMMITMENT_NUMBER {
+                continue;
+            }
             if &ch.m.holder_commitment_txid(&secp, *n, content) == txid {
                 signed_numbers.push(*n);
             }
